@@ -79,8 +79,16 @@ func (o *offsetReadSeeker) ReadAt(p []byte, off int64) (n int, err error) {
 }
 
 func (o *offsetReadSeeker) ReadByte() (byte, error) {
-	_, err := o.Read(o.b[:])
-	return o.b[0], err
+	n, err := o.Read(o.b[:])
+	if n == 1 {
+		// An io.ReaderAt may return the last byte of its input together with io.EOF, but an
+		// io.ByteReader must not return a byte and an error: callers drop the byte.
+		return o.b[0], nil
+	}
+	if err == nil {
+		err = io.ErrNoProgress
+	}
+	return 0, err
 }
 
 func (o *offsetReadSeeker) Offset() int64 {
